@@ -23,14 +23,17 @@ KNOWN_GAP = "partial-sig-outside-slot-window"
 # family: cfg stem, committee size, fork epoch code, sweep depth (quick, thorough), prefixes bound (quick, thorough),
 #         perturbed messages (quick, thorough), concurrent batches (thorough)
 FAMILIES = [
-    dict(name="core", n=4, fork=100000, depth=(3, 4), paths=(350, 5000), bytes=(24, 24), conc=True),
-    dict(name="cons", n=4, fork=100000, depth=(2, 3), paths=(60, 700), bytes=(50, 400), conc=True),
-    dict(name="decided", n=4, fork=100000, depth=(2, 3), paths=(0, 1500), bytes=(25, 100), conc=True),
-    dict(name="seven", n=7, fork=100000, depth=(2, 3), paths=(0, 1500), bytes=(15, 100), conc=False),
-    dict(name="psig", n=4, fork=100000, depth=(2, 3), paths=(60, 1500), bytes=(30, 140), conc=True),
-    dict(name="envelope", n=4, fork=-1, depth=(2, 3), paths=(0, 1500), bytes=(30, 120), conc=False),
-    dict(name="time", n=4, fork=100000, depth=(2, 3), paths=(60, 1500), bytes=(10, 40), conc=False),
+    dict(name="core", n=4, fork=100000, depth=(3, 4), paths=(350, 3000), bytes=(24, 24), conc=True),
+    dict(name="cons", n=4, fork=100000, depth=(2, 3), paths=(60, 500), bytes=(50, 400), conc=True),
+    dict(name="decided", n=4, fork=100000, depth=(2, 3), paths=(0, 800), bytes=(25, 100), conc=True),
+    dict(name="seven", n=7, fork=100000, depth=(2, 3), paths=(0, 800), bytes=(15, 100), conc=False),
+    dict(name="psig", n=4, fork=100000, depth=(2, 3), paths=(60, 600), bytes=(30, 140), conc=True),
+    dict(name="envelope", n=4, fork=-1, depth=(2, 3), paths=(0, 600), bytes=(30, 120), conc=False),
+    dict(name="time", n=4, fork=100000, depth=(2, 3), paths=(60, 500), bytes=(10, 40), conc=False),
 ]
+JVM_SMALL = "1g -XX:ParallelGCThreads=1 -XX:TieredStopAtLevel=1"   # short runs (attack configs, small traces)
+JVM_TRACE = "3g -XX:ParallelGCThreads=2"
+JVM_MC = "6g -XX:ParallelGCThreads=4"
 C08_SIGS = ("validator-panic", "validator-hang", "unbounded-allocation", "decoder-panic:")
 
 
@@ -95,7 +98,7 @@ def _chunks(trace_path, max_events):
 
 
 def _validate_trace(fam_cfg, pw, alphabet_json, lines, name):
-    r = vlib.tlc("MsgValidationTrace", "trace.cfg", name=name, workers=1, timeout=3000,
+    r = vlib.tlc("MsgValidationTrace", "trace.cfg", name=name, workers=1, timeout=3000, heap=JVM_TRACE if len(lines) > 3000 else JVM_SMALL,
                  files={"trace.cfg": cfg_text(fam_cfg, pw, spec="TraceSpec", drop_checks=True, extra="\nPOSTCONDITION TraceAccepted\n"),
                         "alphabet.json": alphabet_json, "trace.ndjson": "".join(lines)})
     if r.error:
@@ -103,6 +106,20 @@ def _validate_trace(fam_cfg, pw, alphabet_json, lines, name):
     mism = [re.sub(r'\s+', ' ', m.group(0)) for m in re.finditer(r'<<\s*"[CG]?MISMATCH[^>]*>>', r.out)]
     complete = (r.depth - 1 == len(lines))
     return dict(events=len(lines), consumed=max(0, r.depth - 1), mismatches=mism, complete=complete, generated=r.generated, wall=r.wall)
+
+
+def _selftest(cfg, pw, alphabet_json, lines):
+    """Binding self-test: a recorded result is corrupted (an ignore/reject turned into an accept) and TLC must object."""
+    for k, ln in enumerate(lines):
+        e = json.loads(ln)
+        if e["e"] == "V" and e["v"] != "accept" and k > 5:
+            e["v"], e["r"], e["g"] = "accept", "", "none"
+            bad = lines[:k] + [json.dumps(e) + "\n"] + lines[k + 1:]
+            tv = _validate_trace(cfg, pw, alphabet_json, bad, "mvt-selftest")
+            if not tv["mismatches"]:
+                raise vlib.MachineryError("binding self-test failed: a corrupted recorded verdict was accepted by MsgValidationTrace")
+            return "corrupted event %d reported: %s" % (k + 1, tv["mismatches"][0][:200])
+    return "skipped"
 
 
 def _family(fam, tier, seed, pw, binary, pool):
@@ -114,9 +131,9 @@ def _family(fam, tier, seed, pw, binary, pool):
     os.makedirs(wd, exist_ok=True)
     out = dict(name=name, cfg=cfg, violations=[], divergences=[], notes=[])
     # 1. exhaustive model checking of the faithful spec; the same run exports the alphabet
-    budget = 150 if tier == "quick" else 900
+    budget = 100 if tier == "quick" else 900
     r = vlib.tlc("MCMsgValidation", "mc.cfg", name="mv-" + name, workers=4 if tier == "quick" else 8, timeout=budget + 300,
-                 stop_after=budget, files={"mc.cfg": cfg_text(cfg, pw)}, keep=True)
+                 stop_after=budget, files={"mc.cfg": cfg_text(cfg, pw)}, keep=True, heap=JVM_MC)
     try:
         if r.error:
             raise vlib.MachineryError("TLC error in %s: %s" % (cfg, r.error[:2000]))
@@ -159,6 +176,8 @@ def _family(fam, tier, seed, pw, binary, pool):
         if k.startswith("sig:"):
             out["sigcounts"][k[4:]] = out["sigcounts"].get(k[4:], 0) + v
     tv = [f.result() for f in futs]
+    if name == "core":
+        out["selftest"] = _selftest(cfg, pw, alphabet_json, chunks[0][:400])
     out["trace"] = dict(chunks=len(tv), events=sum(t["events"] for t in tv), consumed=sum(t["consumed"] for t in tv),
                         mismatches=sum(len(t["mismatches"]) for t in tv), complete=all(t["complete"] for t in tv),
                         generated=sum(t["generated"] for t in tv), samples=[m for t in tv for m in t["mismatches"]][:8])
@@ -171,7 +190,7 @@ def _family(fam, tier, seed, pw, binary, pool):
 
 
 def _attack(cfg, pw):
-    r = vlib.tlc("MCMsgValidation", "a.cfg", name="mva-" + cfg[:-4], workers=1, timeout=600, files={"a.cfg": cfg_text(cfg, pw)})
+    r = vlib.tlc("MCMsgValidation", "a.cfg", name="mva-" + cfg[:-4], workers=1, timeout=600, files={"a.cfg": cfg_text(cfg, pw)}, heap=JVM_SMALL)
     if r.error:
         raise vlib.MachineryError("attack config %s: %s" % (cfg, r.error[:1500]))
     if not r.violation:
@@ -212,7 +231,7 @@ def _run(tier, seed, binary, pw):
     res = dict(tier=tier, seed=seed, variant=pw, families=[], violations=[], divergences=0, states=0, transitions=0,
                traces=0, evaluations=0, nontrivial=0, attack_traces=0, notes=[])
     pool = ThreadPoolExecutor(8)
-    fam_pool = ThreadPoolExecutor(3 if tier == "quick" else 2)
+    fam_pool = ThreadPoolExecutor(4 if tier == "quick" else 2)
     only = os.environ.get("VERIF_MSGVAL_FAMILIES")  # development aid: restrict the run to some families (never cached)
     families = [f for f in FAMILIES if not only or f["name"] in only.split(",")]
     fam_futs = [fam_pool.submit(_family, fam, tier, seed, pw, binary, pool) for fam in families]
@@ -238,7 +257,7 @@ def _run(tier, seed, binary, pw):
         raise vlib.MachineryError("cover config violates %s" % rg.violation)
     cover, gstat = vlib.graph_behaviours(nodes, edges, inits, seed, max_extra=0 if tier == "quick" else 500)
     behs += cover
-    nsim, dsim = (80, 12) if tier == "quick" else (2500, 16)
+    nsim, dsim = (60, 10) if tier == "quick" else (2000, 16)
     rs, sb = vlib.tlc_simulate("MCMsgValidation", "sim.cfg", nsim, dsim, seed, name="mv-sim", keep_vars=["act"], timeout=1500,
                                files={"sim.cfg": cfg_text("MsgValidation_sim.cfg", pw, spec="Spec")})
     if rs.error or rs.violation:
@@ -304,6 +323,8 @@ def _run(tier, seed, binary, pw):
         for k, v in fo["sigcounts"].items():
             sigcounts[k] = sigcounts.get(k, 0) + v
         res["families"].append({k: fo[k] for k in ("name", "mc", "sweep", "trace", "bytes", "sample", "alpha_sample")})
+        if "selftest" in fo:
+            res["selftest"] = fo["selftest"]
     # concurrency (thorough): message sets from 8 goroutines under the race detector, batches validated by TLC
     if tier == "thorough":
         racebin = vlib.go_build("msgval", race=True)
@@ -318,7 +339,7 @@ def _run(tier, seed, binary, pw):
                 os.remove(old)
             rc, reprosc = _driver(racebin, ["-mode", "concurrent", "-alpha", os.path.join(wdc, "alphabet.json"), "-n", str(fam["n"]), "-fork", str(fam["fork"]),
                                             "-seed", str(seed), "-rounds", "300", "-trace", trc, "-out", os.path.join(wdc, "conc.json")],
-                                  env={"GORACE": "halt_on_error=0 log_path=" + racelog})
+                                  env={"GORACE": "halt_on_error=0 exitcode=0 log_path=" + racelog})
             races = len(glob.glob(racelog + "*"))
             lines = open(trc).readlines()
             cfgname = "MsgValidation_%s_%s.cfg" % (fam["name"], tier)
@@ -364,7 +385,7 @@ def finish(prop, tier, seed, res, t0):
         log("[%s] NOTE: %d conformance divergences without a monitor trip (see evidence)" % (prop, res["divergences"]))
     fam = res["families"]
     bytes_tot = sum(f["bytes"]["validator_inputs"] + f["bytes"]["decoder_inputs"] + f["bytes"]["record_inputs"] + f["bytes"]["subnet_inputs"] for f in fam)
-    detail = dict(variant=res["variant"],
+    detail = dict(variant=res["variant"], binding_selftest=res.get("selftest"),
                   configs=[f["mc"] for f in fam], sweeps={f["name"]: f["sweep"] for f in fam}, trace_validation={f["name"]: f["trace"] for f in fam},
                   replay=res["replay"], attack_traces=res["attack_traces"], divergences=res["divergences"], signature_counts=res.get("sigcounts", {}),
                   byte_level={f["name"]: f["bytes"] for f in fam}, concurrent=res.get("concurrent"), shared_run_wall_s=res.get("wall_s"))
